@@ -319,7 +319,11 @@ func (c19) Eval(c *Case) (*Violation, bool) {
 		case simrt.OutDeadlock:
 			return &Violation{Signature: "deadlock", Msg: fmt.Sprintf("run %d: all goroutines blocked, command unfinished", i)}, false
 		case simrt.OutBudget:
-			return &Violation{Signature: "hang", Msg: fmt.Sprintf("run %d: step/task budget exhausted (%d steps, %d tasks)", i, o.Steps, o.Tasks)}, false
+			if o.Budget == "steps" {
+				Extra["inconclusive_step_budget"]++
+				continue
+			}
+			return &Violation{Signature: "hang", Msg: fmt.Sprintf("run %d: tasks are created without end (%d tasks after %d steps)", i, o.Tasks, o.Steps)}, false
 		case simrt.OutPanic:
 			return &Violation{Signature: "panic", Msg: fmt.Sprintf("run %d: panic: %s", i, o.PanicValue), Detail: o.PanicStack}, false
 		}
